@@ -12,11 +12,33 @@ def strip_generics(p):
     """`a::B::<'a, D>::f::<X>` -> `a::B::f` (nested generics handled by iterating); std:: re-exports of core
     modules are spelled core:: so that no_std and std units agree."""
     p = _STD.sub(lambda m: "core::" + m.group(1) + "::", p)
-    prev = None
-    while prev != p:
-        prev = p
-        p = _GEN.sub("", p)
-    return p
+    if "::<" not in p:
+        return p
+    out = []
+    i, n = 0, len(p)
+    while i < n:
+        if p.startswith("::<", i):
+            # skip the balanced generic argument list; `::<impl Trait<..> for T>` segments identify the impl and
+            # are kept (only flat ones such as `::<impl [T]>` are dropped)
+            depth = 0
+            j = i + 2
+            while j < n:
+                c = p[j]
+                if c == "<":
+                    depth += 1
+                elif c == ">" and p[j - 1] != "-":
+                    depth -= 1
+                    if depth == 0:
+                        break
+                j += 1
+            seg = p[i:j + 1]
+            if seg.startswith("::<impl ") and ("<" in seg[3:-1] or ">" in seg[3:-1]):
+                out.append(seg)
+            i = j + 1
+            continue
+        out.append(p[i])
+        i += 1
+    return "".join(out)
 
 
 class Call:
